@@ -359,9 +359,11 @@ impl Iterator for Cmap12Iter<'_> {
                 let mut next_group = self.subtable.group(self.cur_group_ix, &self.limits)?;
                 // Groups should be in order and non-overlapping so make sure
                 // that the start code of next group is at least
-                // current_end.
+                // current_end. Also keep the end from sliding backwards when
+                // a group ends before the current one, so that a later group
+                // cannot enumerate the same range again (see Cmap4Iter).
                 if next_group.range.start < group.range.end {
-                    next_group.range = group.range.end..next_group.range.end;
+                    next_group.range = group.range.end..next_group.range.end.max(group.range.end);
                 }
                 self.cur_group = Some(next_group);
             }
